@@ -72,6 +72,7 @@ func (w *World) dumpAll() []nat.KV {
 type Snapshot struct {
 	raw    []nat.KV
 	vals   []*pk.Key
+	wal    map[string]*pk.Key
 	height uint32
 	time   uint32
 }
@@ -79,7 +80,10 @@ type Snapshot struct {
 // Snapshot saves the committed state, the validator bookkeeping and the clock.
 func (w *World) Snapshot() *Snapshot {
 	w.E.Cache.Reset()
-	s := &Snapshot{vals: append([]*pk.Key{}, w.Vals...), height: w.E.Height, time: w.E.Time}
+	s := &Snapshot{vals: append([]*pk.Key{}, w.Vals...), height: w.E.Height, time: w.E.Time, wal: map[string]*pk.Key{}}
+	for k, v := range w.Wallets {
+		s.wal[k] = v
+	}
 	it := w.E.Overlay.NewIterator(nil)
 	for ok := it.First(); ok; ok = it.Next() {
 		s.raw = append(s.raw, nat.KV{K: append([]byte{}, it.Key()...), V: append([]byte{}, it.Value()...)})
@@ -99,6 +103,10 @@ func (w *World) Restore(s *Snapshot) {
 		w.E.Overlay.Put(kv.K, kv.V)
 	}
 	w.Vals = append([]*pk.Key{}, s.vals...)
+	w.Wallets = map[string]*pk.Key{}
+	for k, v := range s.wal {
+		w.Wallets[k] = v
+	}
 	w.E.Height, w.E.Time = s.height, s.time
 	w.lastDump = nil
 }
